@@ -145,7 +145,9 @@ CLAIMED = {
                   "create_section (duplicate or illegal name, empty type refused before anything is created).",
              note="Assumed: the h5py primitives raise only per their stated preconditions. The code of the creating functions after their refusal point (roll-backs added by the fix: commits for the F4 family) is "
                   "exercised only by the bounded battery C12/bounded/c12 (56 refused calls, canonical walk before / after); failures "
-                  "inside libhdf5 are outside.", ref="7 C12"),
+                  "inside libhdf5 are outside. A multi-row write_rows is one block write (unit write_rows#addr; that h5py refuses a block "
+                  "write as a whole is assumed), and the data-frame battery C16/bounded/c16 (one unusable row at every place of a 2- / "
+                  "3-row call: refused, table unchanged) runs under this property too.", ref="7 C12"),
  "C20": dict(text="Partial (nixio side): deductive proof for Block._copy_objects (the common path of copying arrays, frames, tags and "
                   "multi-tags into a block) that an existing destination name is refused before anything is copied, that the "
                   "destination name is the supplied name or else the source's, that the HDF5 copy is asked for exactly the "
